@@ -110,11 +110,12 @@ struct ctl *ctl_create(struct xcm_socket *socket)
     return ctl;
 }
 
-static void remove_client(struct ctl *ctl, int client_idx)
+static void remove_client(struct ctl *ctl, int client_idx, bool owner)
 {
     struct client *rclient = &ctl->clients[client_idx];
 
-    xpoll_fd_reg_del(ctl->socket->xpoll, rclient->fd_reg_id);
+    if (owner)
+	xpoll_fd_reg_del(ctl->socket->xpoll, rclient->fd_reg_id);
 
     ut_close(rclient->fd);
 
@@ -123,7 +124,7 @@ static void remove_client(struct ctl *ctl, int client_idx)
     if (client_idx != last_idx)
 	memcpy(rclient, &ctl->clients[last_idx], sizeof(struct client));
 
-    if (ctl->num_clients == MAX_CLIENTS)
+    if (owner && ctl->num_clients == MAX_CLIENTS)
 	xpoll_fd_reg_mod(ctl->socket->xpoll, ctl->server_fd_reg_id, EPOLLIN);
 
     ctl->num_clients--;
@@ -136,7 +137,7 @@ void ctl_destroy(struct ctl *ctl, bool owner)
     if (ctl) {
 	UT_SAVE_ERRNO;
 	while (ctl->num_clients > 0)
-	    remove_client(ctl, 0);
+	    remove_client(ctl, 0, owner);
 
 	struct sockaddr_un laddr;
 
@@ -360,7 +361,7 @@ void ctl_process(struct ctl *ctl)
     int i;
     for (i = 0; i < ctl->num_clients; i++) {
 	if (process_client(&ctl->clients[i], ctl) < 0) {
-	    remove_client(ctl, i);
+	    remove_client(ctl, i, true);
 	    /* restart the process for simplicity */
 	    ctl_process(ctl);
 	}
